@@ -1,6 +1,7 @@
 package main
 
 import (
+	"runtime"
 	"bytes"
 	"context"
 	"fmt"
@@ -321,7 +322,7 @@ func buildSMTLevel(o *Obligation, withModel bool, level int) string {
 	_ = declPos
 	var body strings.Builder
 	writeBody := func(sb *strings.Builder) {
-	if o.Expect == "sat" || os.Getenv("GOVC_NOSLICE") != "" || level >= 2 {
+	if o.Expect == "sat" || o.Expect == "sat?" || os.Getenv("GOVC_NOSLICE") != "" || level >= 2 {
 		for _, a := range e.asserts[:o.Prefix] {
 			sb.WriteString("(assert ")
 			sb.WriteString(a)
@@ -375,7 +376,33 @@ func buildSMTLevel(o *Obligation, withModel bool, level int) string {
 	return sb.String()
 }
 
+// loadFactor: solver time limits are wall-clock; on an oversubscribed machine (load average
+// above the number of CPUs) they are stretched by the oversubscription factor (at most 8x),
+// so that a proof found in 1 s on an idle machine is not reported as a timeout under load.
+var loadFactorOnce sync.Once
+var loadFactorVal = 1.0
+
+func loadFactor() float64 {
+	loadFactorOnce.Do(func() {
+		data, err := os.ReadFile("/proc/loadavg")
+		if err != nil {
+			return
+		}
+		var l1 float64
+		fmt.Sscanf(string(data), "%f", &l1)
+		f := l1 / float64(runtime.NumCPU())
+		if f > 1 {
+			if f > 8 {
+				f = 8
+			}
+			loadFactorVal = f
+		}
+	})
+	return loadFactorVal
+}
+
 func runSolver(ctx context.Context, cfgName, file string, timeout time.Duration, seed int) (string, string, float64) {
+	timeout = time.Duration(float64(timeout) * loadFactor())
 	name := cfgName
 	var extra []string
 	if i := strings.Index(cfgName, "+"); i >= 0 {
